@@ -141,7 +141,7 @@ EXPORT errno_t _wcstombs_s_chk(size_t *restrict retvalp, char *restrict dest,
     if (dest) {
         CHK_DMAX_ZERO("wcstombs_s")
         if (destbos == BOS_UNKNOWN) {
-            if (unlikely(dmax > RSIZE_MAX_WSTR || len > RSIZE_MAX_WSTR)) {
+            if (unlikely(dmax > RSIZE_MAX_STR || len > RSIZE_MAX_STR)) {
                 invoke_safe_str_constraint_handler("wcstombs_s"
                                                    ": dmax/len exceeds max",
                                                    (void *)dest, ESLEMAX);
@@ -150,7 +150,7 @@ EXPORT errno_t _wcstombs_s_chk(size_t *restrict retvalp, char *restrict dest,
             BND_CHK_PTR_BOUNDS(dest, destsz);
         } else {
             if (unlikely(dmax > destbos || len > destbos)) {
-                if (unlikely(dmax > RSIZE_MAX_WSTR || len > RSIZE_MAX_WSTR)) {
+                if (unlikely(dmax > RSIZE_MAX_STR || len > RSIZE_MAX_STR)) {
                     handle_error(dest, destbos,
                                  "wcstombs_s"
                                  ": dmax/len exceeds max",
